@@ -13,41 +13,66 @@ PID = "C02"
 PROPS_MODULE = "NumbersModel.Props.C02"
 THEOREMS = [f"NumbersModel.Props.C02.{t}" for t in (
     "record_resave", "record_resave_twice", "strings_resave", "strings_keys_faithful", "rows_resave", "tiles_resave",
-    "table_resave_idempotent", "table_resave_stable")]
-PARTIAL = {"resave_identity_document": "the whole-document statement (formulas, formatted values, bullets, hyperlinks, merge "
-                                       "ranges, sheet/table order) is not a theorem; the cell data of a table is "
-                                       "(table_resave_idempotent / table_resave_stable: class, payload bytes, ids, text at every "
-                                       "position, any number of cycles; payload bytes are taken as re-packed unchanged, i.e. for "
-                                       "payloads in the packers' canonical form). The rest is the dump comparison below (exploration)"}
-RULE = ("every readable fixture under tests/data (quick: a fixed sample of 16 chosen to cover all cell kinds, formulas, bullets, "
-        "hyperlinks, merges, custom formats, packages), the bundled template and API-generated documents: dump -> save -> open "
-        "-> dump -> save -> open -> dump, with and without calling read-only accessors (formula, formatted_value, style, border, "
-        "row_height) before saving; plus string-table histories (init + lookup_key sequences on a real document vs the model) and, "
+    "table_resave_idempotent", "table_resave_stable",
+    "document_resave_identity", "document_resave_stable", "document_resave_any_number", "opened_after_load",
+    "table_state_resave", "merge_state_resave", "hypotheses_satisfiable")]
+PARTIAL = {
+    "rich_text_opaque": "bullets / hyperlinks / the text of a rich-text cell are ONE opaque token per rich-text id in Model/Document.lean "
+                        "(`TableSt.rich`), carried unchanged through saveDoc / loadDoc: `table_rich_text` has no component model or "
+                        "reload theorem, so document_resave_identity says 'the cell names the same rich-text payload', and that the "
+                        "payload reads the same is the dump comparison (exploration) and the `doc` correspondence stream",
+    "lists_not_rewritten_assumed": "the formula list, the format list and the rich-text list are modelled as handed on unchanged by a "
+                                   "save of an unmodified document (the archives stay in the object store); this is tied to the code by "
+                                   "the `doc resave` stream and by the self-test mutations, not proved from a model of the protobuf / "
+                                   "IWA / zip layers (C05, C07), which saveDoc / loadDoc do not compose",
+    "value_interpretation_assumed": "`repr(cell.value)` is compared through the payload bytes and the text: that equal bytes decode to "
+                                    "equal Python values, and that re-packing the interpreted value returns the bytes read (payloads in "
+                                    "the packers' canonical form), are third-party laws (C01 d128_roundtrip / struct), parameters "
+                                    "`Env.interp` / `Env.refText` of `dump`",
+    "accessor_modes_by_oracle_only": "the quantifier 'whether or not read-only accessors were called before saving' is covered by the "
+                                     "whole-document oracle (cycle(), both modes); the model has no accessor-dependent state, style ids "
+                                     "travel in the cell record but `dump` does not read styles / borders / row heights (C15, C17)"}
+RULE = ("every readable fixture under tests/data (quick: a fixed sample of 20 chosen to cover all cell kinds, formulas, bullets, "
+        "hyperlinks, merges, custom formats, packages), the bundled template, the corpus and API-generated documents: dump -> save -> "
+        "open -> dump -> save -> open -> dump, with and without calling read-only accessors (formula, formatted_value, style, border, "
+        "row_height) before saving; for each of these documents the composed model (Model/Document.lean) on the state read from the "
+        "REAL open document by the harness's own readers: `doc dump` vs the real dump, `doc resave` vs the real dump of the re-opened "
+        "copy, `doc resave2` vs the real dump after the second cycle (cells outside fmtglue's display domain / formulas with nodes the "
+        "encoder does not know are printed `U` on both sides, tables over the tier's cell budget `P`; both counted in "
+        "coverage.document_model); plus string-table histories (init + lookup_key sequences on a real document vs the model) and, "
         "for every table of opened fixtures / generated documents, the TST objects of the re-saved file vs saveTable on the cells "
         "as read, and the re-opened grid vs loadTable (Model/TablePipeline). "
         "A case is non-trivial if the document has at least one non-empty cell; distinct by (document, accessor mode)")
 ASSUMPTIONS = ["the dump is what 'the library reads': sheet/table names and order and, per cell, class, repr(value), formula, "
                "formatted_value, bullets, hyperlinks, merge state; cells of class ErrorCell and pivot tables are excluded as the "
-               "property says", "documents that do not open (encrypted, invalid, unsupported version) are outside the domain"]
+               "property says (Model/Document.lean: `Writable`, `TableSt.pivot`)",
+               "documents that do not open (encrypted, invalid, unsupported version) are outside the domain",
+               "Opened (Lemmas/Document.lean) is what an open document satisfies: TreeOK (distinct identifiers, table infos listed by "
+               "their sheet, file segments = store), per table C01 table_roundtrip's hypotheses, MergeAgrees and MergeOK; "
+               "opened_after_load proves Document(path) re-establishes it after a save, the first open is assumed to"]
 MANIFEST = {
-    "text": "Cell data of a table proved end to end, the rest thin: table_resave_idempotent (under the hypotheses of C01 "
-            "table_roundtrip, saving exactly what was read and reopening returns, at every position, the same class, payload bytes, "
-            "twelve ids and text as the first reopen, and both equal the original) and table_resave_stable (the same after any "
-            "number n of save/reopen cycles, none of which raises) over Model/TablePipeline's saveTable (recalculate_table_data) "
-            "and loadTable (Table.__init__). The layer theorems compose the storage layers for one and for two open/save cycles — record_resave / "
-            "record_resave_twice (a record that was read and is written again decodes to the same class, payload and ids; built "
-            "on C04 decode_encode), strings_resave / strings_keys_faithful (the string table rebuilt on save reads every text "
-            "back under its new key; keys 1..n ascending), rows_resave and tiles_resave (C01). The document-level statement is "
-            "checked by a whole-document dump comparison over fixtures and generated documents — implementation-level "
-            "exploration, labelled as such in the evidence.",
-    "note": "formulas, formats, styles, protobuf object graph and zip/IWA layers are not modelled here (C05, C07, C08, C13-C16). "
+    "text": "Core proved by composition, glue assumed: document_resave_identity (for an Opened and Writable document, open -> save -> "
+            "open shows the same sheets in the same order, per sheet the same tables in the same order and, per table, the same "
+            "dimensions, merge ranges and cell by cell the same class, value bytes / text, formula text, formatted value, rich-text "
+            "token and merge flag / placeholder range), document_resave_stable and document_resave_any_number (a second, and any "
+            "further, cycle changes nothing), opened_after_load (Document(path) re-establishes Opened and Writable, so later cycles "
+            "need no extra hypothesis) over Model/Document.lean, which COMPOSES the component models: DocTree (C19 order_after_reload "
+            "machinery: tableIds_perm, serialise_perm), TablePipeline (C01 table_roundtrip: load_save_rel, reread_valid), Merge (C12 "
+            "get_load_pack), Formula.formulaText (C08) and FormatDispatch.formattedValue (C13/C14) as the readers of the formula and "
+            "format lists. hypotheses_satisfiable: a two-sheet, three-table document with a merge, a shared formula, a currency "
+            "format, strings, a rich cell and a date is Opened and Writable. The layer theorems stay: table_resave_idempotent / "
+            "table_resave_stable, record_resave(_twice), strings_resave, strings_keys_faithful, rows_resave, tiles_resave.",
+    "note": "glue assumed (PARTIAL): rich text is an opaque token per id; the formula / format / rich-text lists are taken as not "
+            "rewritten by a save (tied by the `doc resave` stream); the interpretation of payload bytes and of reference nodes are "
+            "parameters of dump; protobuf / IWA / zip layers are not composed (C05, C07). "
             "recell (the in-memory cell after a reopen) keeps the payload bytes that were read: the real re-save re-packs the "
             "interpreted value, which gives the same bytes for payloads in the packers' canonical form (those this library "
             "wrote: C01 d128_roundtrip / struct) - for other encodings of the same number the value is preserved, the bytes need "
             "not be. The extras byte may gain bit 0x80 once (a text cell built by the API has no _string_id, a reopened one has).",
-    "technique": "Lean 4 composition theorems (C04/C01 layers + string table; whole-table pipeline) + differential correspondence of "
-                 "the string table and of re-saved tables (real TST objects vs saveTable / loadTable) + "
-                 "whole-document dump comparison (exploration)",
+    "technique": "Lean 4 composition theorems (document = DocTree + per table TablePipeline / Merge / formula, format, rich lists; "
+                 "C04/C01 layers + string table) + differential correspondence of the composed model against real opened documents "
+                 "(`doc dump / resave / resave2`: state read by independent readers), of the string table and of re-saved tables "
+                 "(real TST objects vs saveTable / loadTable) + whole-document dump comparison (oracle)",
 }
 
 QUICK_DOCS = ["test-1.numbers", "test-2.numbers", "test-3.numbers", "test-formats.numbers", "test-bullets.numbers", "test-hlinks.numbers",
@@ -208,6 +233,8 @@ def build_generated(name):
         tb.set_cell_formatting(0, 0, "currency", currency_code="EUR", decimal_places=2)
         t2 = doc.sheets[0].add_table("Second", num_rows=3, num_cols=3)
         t2.write(1, 1, "x")
+        if name == "gen-multi":
+            t2.merge_cells("A1:B1")   # a merge in a table that is not the first one of its sheet
         doc.add_sheet("Other", "T")
         doc.sheets[1].tables[0].write(0, 0, datetime(2021, 1, 1))
     return doc
@@ -289,6 +316,79 @@ def table_resave_correspondence(ctx: Ctx):
                         req_l, out_l, fmap=c01.grid_line_model, describe=dsc_l)
 
 
+def doc_model_task(task):
+    """one document for the document-level model (Model/Document.lean): the state of the REAL open document read by the
+    harness's own readers (harness/docstate.py), and the real dumps before the save, after one and after two save / open
+    cycles, in the driver's reply format.  Returned as protocol lines; the parent pipes them through `nmdriver`."""
+    warnings.simplefilter("ignore")
+    kind, name, budget = task
+    sub = Ctx(PID, "quick", 0)
+    import docstate
+    from numbers_parser import Document
+    tmp = tempfile.mkdtemp(prefix="c02d-")
+    try:
+        try:
+            if kind == "generated":
+                p0 = os.path.join(tmp, "zero.numbers")
+                build_generated(name).save(p0)
+                doc = Document(p0)
+            elif kind == "corpus":
+                doc = Document(str(CORPUS / name))
+            else:
+                doc = Document(str(REPO / "tests/data" / name) if kind == "fixture" else None)
+        except Exception:  # noqa: BLE001  unreadable documents are outside the domain
+            return common.sub_result(sub, None)
+        stats: dict = {}
+        # the state is read from the open document BEFORE its save (a save that rewrote one of the lists, or the open
+        # document, would otherwise go unnoticed by this stream); the style ids `_to_buffer` assigns during the save are
+        # not part of the dump
+        body, flags, interner = docstate.state_request("", doc, budget, stats, doc_budget=2 * budget)
+        lines = [(f"doc dump {body}", docstate.dump_line(doc, flags, interner), f"doc dump <{kind} {name}>")]
+        try:
+            p1, p2 = os.path.join(tmp, "one.numbers"), os.path.join(tmp, "two.numbers")
+            doc.save(p1)
+            doc1 = Document(p1)
+            doc1.save(p2)
+            doc2 = Document(p2)
+            for op, d in (("resave", doc1), ("resave2", doc2)):
+                lines.append((f"doc {op} {body}", docstate.dump_line(d, flags, interner), f"doc {op} <{kind} {name}>"))
+        except Exception:  # noqa: BLE001  a failing re-save is reported by cycle(); the `doc dump` line is still compared
+            stats["documents whose re-save raises (dump line only)"] = 1
+        cells = sum(len(r) for fl in flags if fl is not None for r in fl)
+        stats["tables modelled"] = sum(1 for fl in flags if fl is not None)
+        stats["cells modelled"] = cells
+        stats["documents"] = 1
+        return common.sub_result(sub, {"lines": lines, "stats": stats, "nontrivial": cells > 0, "name": name})
+    finally:
+        shutil.rmtree(tmp, ignore_errors=True)
+
+
+def document_model_correspondence(ctx: Ctx, tasks):
+    """real documents vs the composed model: `dump d` on the state read from the open document vs the real dump (ties the
+    readers and `dump`), `dump (loadDoc (saveDoc d))` vs the real dump of the re-opened copy, and the same after a second
+    cycle — document by document."""
+    from checks import c01
+    # quick: at most `budget` cells per table are modelled, larger tables are stand-ins printed `P` on both sides (counted)
+    budget = 1500 if ctx.quick else 60000
+    payloads = common.run_parallel(ctx, doc_model_task, [(k, n, budget) for k, n in tasks])
+    req, out, dsc = [], [], []
+    totals: dict = {}
+    for p in payloads:
+        if not p:
+            continue
+        for r, o, d in p["lines"]:
+            req.append(r)
+            out.append(o)
+            dsc.append(d)
+        for k, v in p["stats"].items():
+            totals[k] = totals.get(k, 0) + v
+        if p["nontrivial"]:
+            ctx.mark(("doc-model", p["name"]))
+    c01.correspond_long(ctx, "whole document: model dump / resave / resave2 on the state read from the real open document vs the "
+                             "real dumps before the save, after one and after two save/open cycles", req, out, describe=dsc)
+    ctx.extra["document_model"] = totals
+
+
 def run(ctx: Ctx):
     warnings.simplefilter("ignore")
     data = REPO / "tests" / "data"
@@ -303,8 +403,11 @@ def run(ctx: Ctx):
     common.run_parallel(ctx, cycle, tasks)
     string_table_correspondence(ctx)
     table_resave_correspondence(ctx)
-    ctx.extra["exploration_note"] = ("the document dump comparison is implementation-level exploration; the string-table "
-                                     "histories and the re-saved tables are model correspondence")
+    seen = set()
+    doc_tasks = [(k, n) for k, n, _ in tasks if not ((k, n) in seen or seen.add((k, n)))]
+    document_model_correspondence(ctx, doc_tasks)
+    ctx.extra["exploration_note"] = ("the document dump comparison is the property oracle (independent of the model); the `doc` stream, "
+                                     "the string-table histories and the re-saved tables are model correspondence")
 
 
 def replay(data):
